@@ -51,7 +51,7 @@ def id_case(rec, cfg, agent, op, which):
     return a, rec.n
 
 
-def case(rec, cfg, agent, op, f, via="ctor"):
+def case(rec, cfg, agent, op, f, via="ctor", size=0):
     """via: "ctor" - the keys are given to the socket's constructor; "set_keys" - the socket is created key-less (as the clients do
     before engine discovery) and the keys are installed afterwards: whatever the receive path remembers about the session's security
     level must follow the installation"""
@@ -72,7 +72,7 @@ def case(rec, cfg, agent, op, f, via="ctor"):
         w, _ = s.send("getbulk", [base], maxrep=4)
     if w is not None:
         req = ag.Request(cfg, w)
-        vbs = [(bytes(n) + (bytes([1]) if op in ("getnext", "getbulk") else b""), ("int", 4242)) for n in req.names]
+        vbs = [(bytes(n) + (bytes([1]) if op in ("getnext", "getbulk") else b""), ("int", 4242) if not size else ("octets", b"F" * size)) for n in req.names]
         kw = dict(mac=f["mac"] if isinstance(f["mac"], dict) else {"valid": "valid", "zero": "zero", "random": "random", "flipped": "flip", "absent": "absent"}[f["mac"]],
                   flag_auth=f["flagAuth"], enc={"ok": "ok", "plain": "plain", "bad": "badkey"}[f["enc"]])
         if f["pdu"] == "report":
@@ -118,6 +118,17 @@ def run(tier):
                 authentic = f["mac"] == "valid" and f["flagAuth"] and f["enc"] == ("ok" if std[cn].priv != "none" else "plain")
                 runs.append((a, b, dict(cfg=cn, op=op, forgery=f, verdict=c["verdict"], via=via)))
                 chk.case((cn, op, via, json.dumps(f, sort_keys=True)), nontrivial=not authentic)
+        # the same cells in LARGE replies (2049 .. 4000 octets: above the msgMaxSize the client announces, below what a receive takes):
+        # the verdict on a MAC does not depend on the size of the message it protects
+        for ci, c in enumerate(cells):
+            f = c["forgery"]
+            if f["pdu"] != "response" or (not thorough and (ci + SEED) % 2 and f["mac"] not in ("zero", "valid")):
+                continue
+            size = [2020, 2900, 3900][(ci + SEED) % 3]
+            op = ["get", "getnext"][ci % 2]
+            a, b = case(rec, std[cn], agent, op, f, "ctor", size=size)
+            runs.append((a, b, dict(cfg=cn, op=op, forgery=f, verdict=c["verdict"], via="ctor", size=size)))
+            chk.case((cn, op, "large", size, json.dumps(f, sort_keys=True)), nontrivial=True)
         # near-miss MACs (otherwise authentic Response): 12 single bits, 66 xor-cancelling pairs, 66 sum-cancelling pairs, rotations, partial MACs
         if len(near) != 12 + 66 + 66 + 4 + 11 + 1 + 11 + 11 + 11 + 3:
             raise ToolError("near-miss MAC family incomplete: %d" % len(near))
@@ -185,7 +196,7 @@ def replay(path):
             print("VIOLATION property=C10 replay=%s" % path)
         return rc
     rec = trace.Recorder("c10-replay")
-    case(rec, scripts.std_cfgs()[info["cfg"]], ag.Agent(), info["op"], info["forgery"], info.get("via", "ctor"))
+    case(rec, scripts.std_cfgs()[info["cfg"]], ag.Agent(), info["op"], info["forgery"], info.get("via", "ctor"), size=info.get("size", 0))
     v = trace.validate("TraceSession.tla", "TraceSession.cfg", rec.close())
     if v["accepted"] and not v["fails"]:
         print("replay: accepted")
